@@ -472,3 +472,58 @@ def guarded_primitives(prog, an, rep, pid):
                       ': do_push defaults to False', f.where(),
                       'do_push of Branch.merge is bound as %s' %
                       [src(v) for _, v in st if v is not None])
+
+
+
+def per_author_options(prog, an, rep, pid):
+    """PrAuthorsOptions.deserialize grants each author exactly the bypasses
+    listed for that author."""
+    R = pid + '.ARG.per-author-options'
+    k = prog.cls('bert_e.settings.PrAuthorsOptions')
+    f = k.methods.get('deserialize')
+    rep.evaluated()
+    if f is None:
+        rep.violation(R, 'PrAuthorsOptions.deserialize', k.where(),
+                      'per-author options are no longer parsed')
+        return
+    loops = [n for n in walk_local(f.node, include_root=False)
+             if isinstance(n, ast.For) and 'data.items()' in src(n.iter)]
+    ok = False
+    detail = None
+    for lp in loops:
+        if not (isinstance(lp.target, ast.Tuple) and
+                len(lp.target.elts) == 2):
+            continue
+        user, lst = (src(e) for e in lp.target.elts)
+        for st in walk_local(lp, include_root=False):
+            if isinstance(st, ast.Assign) and \
+                    src(st.targets[0]) == 'res[%s]' % user:
+                detail = src(st.value)
+                comp = [x for x in ast.walk(st.value)
+                        if isinstance(x, (ast.ListComp, ast.GeneratorExp,
+                                          ast.DictComp))]
+                for cmp_ in comp:
+                    it = src(cmp_.generators[0].iter)
+                    tgt = src(cmp_.generators[0].target)
+                    body = src(cmp_.elt) if not isinstance(
+                        cmp_, ast.DictComp) else '(%s, %s)' % (
+                            src(cmp_.key), src(cmp_.value))
+                    if it == 'self.BYPASS_LIST' and \
+                            body == '(%s, %s in %s)' % (tgt, tgt, lst) and \
+                            not cmp_.generators[0].ifs:
+                        ok = True
+    rep.check(ok, R, f.qname + ': res[author] = {bypass: bypass in that '
+              'author\'s own list}', f.where(), 'per-author bypasses are '
+              'computed as %s: an author can inherit the bypasses listed '
+              'for another one' % detail, detail=detail)
+    # unknown names are rejected
+    c = an.cfg(f)
+    bad = an.branch_nodes(f, lambda e: src(e) == 'elem in self.BYPASS_LIST',
+                          False)
+    okr = False
+    from .c12 import _first_exit
+    for b in bad:
+        first = _first_exit(an, f, c, b)
+        okr = first is not None and first[0] == 'raise'
+    rep.check(okr, R, f.qname + ': an unknown bypass name is rejected',
+              f.where(), 'unknown per-author bypass names are accepted')
